@@ -44,7 +44,7 @@ ASSUMPTIONS = [
     "unspecified: containers under an Any annotation, object.__setattr__ / vars() tricks, NaN attributes, passing MISSING explicitly for an attribute with another default, direct __eq__ calls",
     "equality of attribute values is Python's == on the stored values",
 ]
-MINIMUMS = {"monitor:frozen": 5000, "monitor:no-aliasing": 1500, "monitor:inner-immutable": 2500, "monitor:updated": 5000, "monitor:copy": 3000, "monitor:equality": 10000, "aliasing_attempts_on_nonempty": 1200}
+MINIMUMS = {"lookalike_updates": 300, "monitor:frozen": 5000, "monitor:no-aliasing": 1500, "monitor:inner-immutable": 2500, "monitor:updated": 5000, "monitor:copy": 3000, "monitor:equality": 10000, "aliasing_attempts_on_nonempty": 1200}
 JOBS = {"quick": 4, "thorough": 16}
 LEVEL_TEXT = (
     "Seeded classes over the whole annotation vocabulary (plus recursive, Self-referential, generic-specialised, Missing-typed and defaulted ones) are instantiated and attacked with "
@@ -69,6 +69,12 @@ class WithMissing(State):
     x: int | Missing = MISSING
     names: Sequence[str] = ("a",)
     table: Mapping[str, Sequence[int]] | Missing = MISSING
+
+class Tables(State):
+    rows: Sequence[Mapping[str, int]]
+    groups: Sequence[Set[int]]
+    lists: Sequence[Sequence[int]]
+    pairs: tuple[Mapping[str, int], Set[int]]
 
 class Deep(State):
     grid: Sequence[Sequence[Mapping[str, Set[int]]]]
@@ -137,6 +143,36 @@ def inner_containers(N: A.Namespace, v: Any, depth: int = 0) -> list[Any]:
 
 def has_mapping(N: A.Namespace, inst: Any) -> bool:
     return any(isinstance(c, collections.abc.Mapping) for k in type(inst).__ATTRIBUTES__ for c in inner_containers(N, getattr(inst, k, None)))
+
+
+def lookalikes(v: Any, depth: int = 0) -> list[Any]:
+    """values that compare == to v but have another type somewhere (True for 1, 1.0 for 1, an enum's raw value, a list for a tuple ...)"""
+    import enum
+
+    out: list[Any] = []
+    if depth > 3:
+        return out
+    if isinstance(v, bool):
+        out += [int(v), float(v)]
+    elif isinstance(v, enum.Enum):
+        out += [v.value]
+    elif isinstance(v, int):
+        out += [float(v)] + ([bool(v)] if v in (0, 1) else [])
+    elif isinstance(v, float) and abs(v) < 2**50 and v == int(v):
+        out += [int(v)]
+    elif isinstance(v, tuple):
+        for i, x in enumerate(v):
+            for y in lookalikes(x, depth + 1):
+                out.append((*v[:i], y, *v[i + 1:]))
+    elif isinstance(v, frozenset) and v:
+        x = next(iter(v))
+        for y in lookalikes(x, depth + 1):
+            out.append((v - {x}) | {y})
+    elif isinstance(v, collections.abc.Mapping) and v:
+        k = next(iter(v))
+        for y in lookalikes(v[k], depth + 1):
+            out.append({**dict(v), k: y})
+    return out
 
 
 def try_mutate(c: Any, rng: random.Random) -> tuple[str, bool]:
@@ -254,7 +290,7 @@ class Attack:
             R.monitor("value-stable", ok, where={**w0, "kind": "value-changed", "after": step.split(":")[0]}, detail=f"after {history}: snapshot {snap!r} != initial {snap0!r} (== twin: {twin is None or inst == twin})", case={**case, "history": list(history)})
 
         for _ in range(rng.randint(1, 8)):
-            kind = rng.choice(["setattr", "setattr-new", "delattr", "alias", "alias", "alias", "alias", "inner", "inner", "inner", "updated-valid", "updated-invalid", "updated-unknown", "copy", "deepcopy", "compare"])
+            kind = rng.choice(["setattr", "setattr-new", "delattr", "alias", "alias", "alias", "alias", "inner", "inner", "inner", "updated-valid", "updated-invalid", "updated-unknown", "updated-lookalike", "updated-lookalike", "copy", "deepcopy", "compare"])
             an = rng.choice(list(terms))
             if kind == "alias":
                 with_c = [a for a in terms if anyfree[a] and mutable_containers(args[a])]
@@ -333,6 +369,18 @@ class Attack:
         names = rng.sample(list(terms), rng.randint(1, len(terms)))
         kw: dict[str, Any] = {}
         expect_fail = False
+        if kind == "updated-lookalike":
+            # replacement values that are == to the current ones but of another type: still re-validated, still replaced
+            names = names[:1]
+            cur = getattr(inst, names[0], None)
+            cands = [w for w in lookalikes(cur) if A.conforms(N, terms[names[0]], w) is not None]
+            if not cands:
+                return
+            w = rng.choice(cands)
+            kw = {names[0]: w}
+            expect_fail = A.conforms(N, terms[names[0]], w) is False
+            R.count("lookalike_updates")
+            names = []
         for an in names:
             if kind == "updated-invalid" and (an == names[0]):
                 for _ in range(10):
@@ -353,6 +401,8 @@ class Attack:
         if kind == "updated-unknown":
             kw = {**({} if rng.random() < 0.5 else kw), "hv_unknown_name": object(), "another_unknown": 1}
         if kind == "updated-invalid" and not expect_fail:
+            return
+        if kind == "updated-lookalike" and not kw:
             return
         history.append(f"{kind}:{','.join(kw)}")
         hist = {**case, "history": list(history), "kwargs": repr(kw)[:300]}
@@ -497,6 +547,32 @@ def fixed_cases(atk: Attack, rng: random.Random) -> None:
         cls._hv_attrs = attrs
         for _ in range(12):
             atk.attack(cls, f"<fixed {cls.__name__}>", attrs, rng)
+    # containers inside containers, every outer shape: mutating the caller's inner containers afterwards must not show
+    Tables = ns["Tables"]
+    for outer in (list, tuple, collections.deque):
+        rows, groups, lists = [{"a": 1}, {}], [{1, 2}, set()], [[1, 2], []]
+        pair = ({"k": 1}, {7})
+        t = Tables(rows=outer(rows), groups=outer(groups), lists=outer(lists), pairs=pair)
+        snap = atk.snapshot(t)
+        rows[0]["a"] = 2
+        rows[1]["new"] = 3
+        groups[0].add(3)
+        groups[1].add(9)
+        lists[0].append(3)
+        lists[1].append(1)
+        pair[0]["k"] = 5
+        pair[1].add(8)
+        atk.R.case(("fixed", "Tables", outer.__name__), nontrivial=True)
+        atk.R.count("aliasing_attempts_on_nonempty", 8)
+        atk.R.monitor("no-aliasing", atk.snapshot(t) == snap, where={"has_mapping": True, "kind": "argument-mutation-reflected", "container": f"{outer.__name__}-of-containers", "op": "inner-mutation"},
+                      detail=f"Tables built from {outer.__name__}s of dict/set/list; after mutating the callers' inner containers: {t!r} (before: {snap[1]!r})", case={"source": "<fixed Tables>", "outer": outer.__name__})
+        for attr in ("rows", "groups", "lists"):
+            for c in getattr(t, attr):
+                op, done = try_mutate(c, rng)
+                atk.R.monitor("inner-immutable", not done, where={"has_mapping": True, "kind": "stored-container-mutable", "container": type(c).__name__, "op": op}, detail=f"{op} on {type(c).__name__} stored in Tables.{attr} succeeded: {c!r}", case={"source": "<fixed Tables>", "outer": outer.__name__})
+        u = t.updated(rows=outer([{"z": 0}]))
+        atk.R.monitor("updated", atk.snapshot(t) == atk.snapshot(t) and A.normal(u.rows, N.State) == A.normal(({"z": 0},), N.State) and A.normal(u.groups, N.State) == A.normal(t.groups, N.State),
+                      where={"has_mapping": True, "kind": "update-result-wrong", "unknown_names": False}, detail=f"Tables.updated(rows=...) -> {u!r}", case={"source": "<fixed Tables>"})
     # recursive classes: built by hand (the term language has no recursion)
     Node, Tree = ns["Node"], ns["Tree"]
     for _ in range(6):
